@@ -1071,7 +1071,42 @@ impl<'p> Harness<'p> {
                 }
             }
         }
+        // decoder 2: observers created after the caught panic. They have not been through a
+        // stabilise and never will (the state is poisoned): whatever they return, now and after
+        // the refused stabilise below, must not be a value that differs from the fully propagated
+        // one (a node's cache from before the round would be exactly that)
+        let mut late: Vec<(Tag, Observer<Val>)> = vec![];
+        if crate::choice::dv() >= 2 {
+            for h in self.nodes.iter().filter(|h| h.incr.is_some()).take(6) {
+                let incr = h.incr.clone().unwrap();
+                if let Ok(o) = guarded(|| incr.observe()) {
+                    late.push((h.tag, o));
+                }
+            }
+        }
         for pass in 0..2 {
+            for (t, o) in late.iter() {
+                let got = match guarded(|| read_obs(o)) {
+                    Ok(g) => g,
+                    Err(m) => {
+                        self.fail("C13", "read-panicked", format!("round {r}: reading an observer created after the caught panic panicked: {m}"));
+                        continue;
+                    }
+                };
+                if let Ok(v) = got {
+                    let stale = if in_handler && !self.model.weird && self.model.gave_up.is_none() {
+                        match self.model.eval(*t) {
+                            Ok(w) => w != v,
+                            Err(()) => false,
+                        }
+                    } else {
+                        !in_handler
+                    };
+                    if stale {
+                        self.fail("C13", "value-after-fault", format!("round {r}: an observer created on #{t} after the caught panic ({role:?}) returned {v:?} (pass {pass}), which is not the fully propagated value"));
+                    }
+                }
+            }
             for oi in 0..self.obs.len() {
                 let clones: Vec<Observer<Val>> = self.obs_tbl.borrow()[oi].clones.iter().flatten().cloned().collect();
                 for c in clones {
